@@ -87,9 +87,12 @@ class Switch(Device):
 
     def process_group_write(self, telegram: GroupValueTelegram) -> None:
         """Process incoming and outgoing GROUP WRITE telegram."""
-        if self.switch.process(telegram):
-            if self._reset_task is not None and self.switch.value:
+        if self.switch.process(telegram) and self._reset_task is not None:
+            if self.switch.value:
                 self.xknx.task_registry.start_task(self._reset_task)
+            else:
+                # already 'off' - nothing is left to reset
+                self._reset_task.cancel()
 
     def process_group_read(self, telegram: GroupReadTelegram) -> None:
         """Process incoming GroupValueResponse telegrams."""
